@@ -27,6 +27,24 @@ impl A {
     }
 }
 
+/// Operations on the bare `Model` of the world (C29/C30): the statement's observation
+/// points are `Model` setters and getters, which `UserModel` only exposes read-only.
+#[derive(Serialize, Deserialize, Clone, Debug, PartialEq)]
+#[serde(tag = "o")]
+pub enum BareOp {
+    ColWidth { sheet: u32, col: i32, w: f64 },
+    ColHidden { sheet: u32, col: i32, hidden: bool },
+    ColStyle { sheet: u32, col: i32, style: Style },
+    ColStyleDelete { sheet: u32, col: i32 },
+    RowHeight { sheet: u32, row: i32, h: f64 },
+    RowHidden { sheet: u32, row: i32, hidden: bool },
+    RowStyle { sheet: u32, row: i32, style: Style },
+    RowStyleDelete { sheet: u32, row: i32 },
+    CellStyle { sheet: u32, row: i32, col: i32, style: Style },
+    /// to_bytes -> from_bytes of the bare model
+    Restart,
+}
+
 #[derive(Serialize, Deserialize, Clone, Debug, PartialEq)]
 #[serde(tag = "k")]
 pub enum Ev {
@@ -115,6 +133,7 @@ pub enum Ev {
     /// damage it, import it (optionally through a fault-injecting reader)
     CorruptImport { fixture: Option<String>, corrupt: crate::xlsxfault::Corrupt, read: Option<crate::xlsxfault::ReadPlan> },
     Tick { ms: u64 },
+    Bare { op: BareOp },
     // ---- probes that are user-level actions -------------------------------
     Retype { sheet: u32, row: i32, col: i32 },
     InsertThenDelete { sheet: u32, rows: bool, at: i32, n: i32 },
@@ -201,6 +220,7 @@ impl Ev {
             XlsxExportImport { .. } => "XlsxExportImport",
             CorruptImport { .. } => "CorruptImport",
             Tick { .. } => "Tick",
+            Bare { .. } => "Bare",
             Retype { .. } => "Retype",
             InsertThenDelete { .. } => "InsertThenDelete",
         }
@@ -235,6 +255,7 @@ impl Ev {
                 | XlsxExportImport { .. }
                 | CorruptImport { .. }
                 | Tick { .. }
+                | Bare { .. }
         )
     }
 
@@ -242,7 +263,7 @@ impl Ev {
         use Ev::*;
         matches!(
             self,
-            Flush | Deliver { .. } | Save | Restart { .. } | XlsxRestart | XlsxExportImport { .. } | CorruptImport { .. } | Tick { .. }
+            Flush | Deliver { .. } | Save | Restart { .. } | XlsxRestart | XlsxExportImport { .. } | CorruptImport { .. } | Tick { .. } | Bare { .. }
         )
     }
 }
